@@ -281,11 +281,18 @@ func setReferenceForms(name string, form int, async bool) *spec.Spec {
 // expressions are copied into the injector body, so a generated local of the
 // same name in an enclosing scope would capture them: the file stops
 // compiling, or - same type - the injector silently uses the wrong value.
-func shadowableNames(name string, async bool) *spec.Spec {
+func shadowableNames(name string, async bool, sameTypeOnly ...bool) *spec.Spec {
 	b := newBuilder(name)
 	var params []int
 	var provs []int
-	for i, n := range []string{"eg", "err", "zero", "ch", "ctx", "retries5", "app"} {
+	names := []string{"eg", "err", "zero", "ch", "ctx", "retries5", "app"}
+	if len(sameTypeOnly) > 0 && sameTypeOnly[0] {
+		// every variable is called exactly like the local the generator derives
+		// from its OWN type: a capturing local has the same type, so the file
+		// still compiles and only the value is wrong
+		names = []string{"retries0", "retries1", "retries2", "retries3", "retries4", "retries5", "retries6"}
+	}
+	for i, n := range names {
 		t := b.nint(fmt.Sprintf("Retries%d", i), "")
 		v := uint64(1000 + i)
 		b.s.ExtraDecl += fmt.Sprintf("var %s %s = %d\n", n, b.s.Types[t].Name, v)
@@ -406,6 +413,116 @@ func aliasDeclaredFields(name string, async bool) *spec.Spec {
 	return b.s
 }
 
+// suffixNamedFiles: two declaration files of one package whose names are
+// related by suffix (db_kessoku.go sorts before kessoku.go and ends with it).
+// Whatever form the file argument takes, each file's output comes from its
+// own declarations.
+func suffixNamedFiles(name string, async bool) *spec.Spec {
+	b := newBuilder(name)
+	b.s.Files = []string{"kessoku.go", "db_kessoku.go"}
+	cfg := b.ptr(b.strct("Config", ""))
+	db := b.ptr(b.strct("Database", ""))
+	app := b.ptr(b.strct("App", ""))
+	p1 := b.fn("NewConfig", "", nil, []int{cfg}, async, false)
+	p2 := b.fn("NewDatabase", "", []int{cfg}, []int{db}, async, true)
+	p3 := b.fn("NewApp", "", []int{db, cfg}, []int{app}, false, false)
+	b.inject("InitializeApp", app, p1, p2, p3)
+	b.inject("InitializeDatabase", db, p1, p2)
+	b.s.Injectors[1].File = 1
+	b.s.Features = append(b.s.Features, "declaration-file-names-related-by-suffix")
+	return b.s
+}
+
+// foreignCompositeKeys: Value expressions that are keyed composite literals
+// of a sibling package's struct whose FIELD names coincide with package-level
+// names of that package (an embedded field, a field called like its type),
+// written directly and inside a called function literal. Keys are fields, not
+// package members: they must stay unqualified.
+func foreignCompositeKeys(name string, async bool) *spec.Spec {
+	b := newBuilder(name)
+	b.s.Dynamic = false
+	b.s.NoForward = true
+	opts := b.ext("opts", "opts", "")
+	b.s.ExtDecl = map[string]string{opts: "type Level int\n\nconst LevelDebug Level = 1\n\ntype Inner struct{ N int }\n\ntype Options struct {\n\tInner\n\tLevel Level\n\tName  string\n}\n\ntype Limits struct{ Options Options }\n"}
+	o := b.typ(&spec.Type{Kind: spec.KRaw, Raw: "opts.Options", RawNames: []string{"Options"}})
+	l := b.typ(&spec.Type{Kind: spec.KRaw, Raw: "*opts.Limits", RawNames: []string{"Limits"}})
+	app := b.ptr(b.strct("App", ""))
+	pv1 := &spec.Prov{ID: len(b.s.Provs), Kind: spec.PValue, ValExpr: "opts.Options{Inner: opts.Inner{N: 7}, Level: opts.LevelDebug, Name: \"x\"}", Results: []int{o}}
+	b.s.Provs = append(b.s.Provs, pv1)
+	pv2 := &spec.Prov{ID: len(b.s.Provs), Kind: spec.PValue, ValExpr: "func() *opts.Limits {\n\t\tlimits := &opts.Limits{Options: opts.Options{Inner: opts.Inner{N: 1}, Level: opts.Level(2)}}\n\t\treturn limits\n\t}()", Results: []int{l}}
+	b.s.Provs = append(b.s.Provs, pv2)
+	p3 := b.fn("NewApp", "", []int{o, l}, []int{app}, async, false)
+	other := b.ptr(b.strct("Other", ""))
+	p4 := b.fn("NewOther", "", nil, []int{other}, async, false)
+	top := b.ptr(b.strct("Top", ""))
+	p5 := b.fn("NewTop", "", []int{app, other}, []int{top}, false, false)
+	b.inject("InitializeTop", top, pv1.ID, pv2.ID, p3, p4, p5)
+	b.s.Features = append(b.s.Features, "keyed-composite-literal-of-sibling-struct-with-field-names-like-package-members")
+	return b.s
+}
+
+// spelledTwoWays: one type written differently at its supplier and at its
+// consumers: a generic instance with an alias type argument (Box[ID] vs
+// Box[string], type ID = string), a pointer to it, a map with an alias value
+// type, a function type with and without parameter names. Suppliers and
+// consumers must still meet; nothing becomes an extra injector argument.
+func spelledTwoWays(name string, async bool) *spec.Spec {
+	b := newBuilder(name)
+	b.s.Dynamic = false
+	b.s.ExtraDecl = "type Box[T any] struct{ V T }\n\ntype ID = string\n\ntype Count = int\n"
+	box := b.typ(&spec.Type{Kind: spec.KRaw, Raw: "Box[string]", RawNames: []string{"Box"}})
+	pbox := b.typ(&spec.Type{Kind: spec.KRaw, Raw: "*Box[int]", RawNames: []string{"Box"}})
+	m := b.typ(&spec.Type{Kind: spec.KRaw, Raw: "map[string][]int", RawNames: nil})
+	f := b.typ(&spec.Type{Kind: spec.KRaw, Raw: "func(string, int) error", RawNames: nil})
+	app := b.ptr(b.strct("App", ""))
+	store := b.ptr(b.strct("Store", ""))
+	p1 := b.fn("NewBox", "", nil, []int{box}, async, false)
+	b.s.Provs[p1].ResultSpell = []string{"Box[ID]"}
+	p2 := b.fn("NewCounter", "", nil, []int{pbox, m}, async, true)
+	b.s.Provs[p2].ResultSpell = []string{"*Box[Count]", "map[ID][]Count"}
+	p3 := b.fn("NewLookup", "", []int{box}, []int{f}, false, false)
+	b.s.Provs[p3].ResultSpell = []string{"func(key ID, n Count) error"}
+	p4 := b.fn("NewStore", "", []int{box, pbox, m, f}, []int{store}, async, false)
+	p5 := b.fn("NewApp", "", []int{store, box}, []int{app}, false, false)
+	b.s.Provs[p5].ParamSpell = []string{"", "Box[ID]"}
+	b.inject("InitializeApp", app, p1, p2, p3, p4, p5)
+	b.inject("InitializeStore", store, p1, p2, p3, p4)
+	// nobody supplies the box here: it is ONE argument, however it is spelled
+	b.inject("InitializeFromArguments", app, p4, p5, p2, p3)
+	b.s.Features = append(b.s.Features, "one-type-spelled-two-ways")
+	return b.s
+}
+
+// sameLocalNameInTwoWireFiles: two further wire files of the package import
+// DIFFERENT packages under the same local name (both are `package v1`), and
+// mention them inside wire.Value expressions that are more than a bare
+// selector: composite literals (one of them multi-line, with a nested slice
+// literal), a conversion of a function literal, a nested call. The merged
+// output needs one consistent alias per package at every depth.
+func sameLocalNameInTwoWireFiles(name string) *spec.Spec {
+	b := newBuilder(name)
+	bill := b.ext("billing/v1", "v1", "billingv1")
+	ship := b.ext("shipping/v1", "v1", "shippingv1")
+	b.s.ExtDecl = map[string]string{
+		bill: "type Options struct {\n\tCurrency string\n\tRetries  int\n}\n\ntype Client struct{ Opt Options }\n\nfunc NewClient(o Options) *Client { return &Client{Opt: o} }\n",
+		ship: "type Zone string\n\ntype Limits struct {\n\tMaxKg int\n\tZones []Zone\n}\n\ntype ZonePicker func(country string) Zone\n\ntype Planner struct {\n\tLim  Limits\n\tPick ZonePicker\n}\n\nfunc NewPlanner(l Limits, p ZonePicker) *Planner { return &Planner{Lim: l, Pick: p} }\n\nfunc DefaultZone(z Zone) Zone { return z }\n",
+	}
+	// the identity-carrying part: one ordinary injector over both packages
+	s1 := b.ptr(b.strct("Ledger", bill))
+	s2 := b.ptr(b.strct("Route", ship))
+	app := b.ptr(b.strct("App", ""))
+	p1 := b.fn("NewLedger", bill, nil, []int{s1}, false, false)
+	p2 := b.fn("NewRoute", ship, nil, []int{s2}, false, true)
+	p3 := b.fn("NewApp", "", []int{s1, s2}, []int{app}, false, false)
+	b.inject("InitializeApp", app, p1, p2, p3)
+	b.s.ExtraWireFiles = map[string]string{
+		"wire_billing.go": "//go:build wireinject\n\npackage " + name + "\n\nimport (\n\t\"github.com/google/wire\"\n\t\"{{PKG}}/billing/v1\"\n)\n\nvar BillingSet = wire.NewSet(\n\twire.Value(v1.Options{Currency: \"EUR\", Retries: 3}),\n\tv1.NewClient,\n)\n",
+		"wire_shipping.go": "//go:build wireinject\n\npackage " + name + "\n\nimport (\n\t\"strings\"\n\n\t\"github.com/google/wire\"\n\t\"{{PKG}}/shipping/v1\"\n)\n\nvar ShippingSet = wire.NewSet(\n\twire.Value(v1.Limits{\n\t\tMaxKg: 30,\n\t\tZones: []v1.Zone{\n\t\t\t\"eu\",\n\t\t\tv1.DefaultZone(v1.Zone(\"us\")),\n\t\t},\n\t}),\n\twire.Value(v1.ZonePicker(func(country string) v1.Zone {\n\t\tif strings.EqualFold(country, \"us\") {\n\t\t\treturn v1.Zone(\"us\")\n\t\t}\n\t\treturn v1.Zone(\"eu\")\n\t})),\n\tv1.NewPlanner,\n)\n",
+	}
+	b.s.Features = append(b.s.Features, "same-local-package-name-in-two-wire-files-inside-value-expressions")
+	return b.s
+}
+
 // injectorNameForms: declarations whose injector name cannot become a
 // package-level function: used twice in one file (0) or in two files of one
 // package (4), equal to a function the user wrote (1), a keyword (2), not an
@@ -479,7 +596,7 @@ func corpusSpecs(prop string) []*spec.Spec {
 		h.Injectors[0].Items = append(h.Injectors[0].Items, spec.Item{Prov: pl})
 		h.WireLocalHelper = true
 		h.Features = append(h.Features, "provider-declared-in-the-wire-file")
-		return []*spec.Spec{twinConfigs("k14a", false), twinConfigs("k14b", true), sameNamedPackages("k14c"), h}
+		return []*spec.Spec{twinConfigs("k14a", false), twinConfigs("k14b", true), sameNamedPackages("k14c"), h, sameLocalNameInTwoWireFiles("k14v")}
 	case "C04", "C12":
 		var fs []*spec.Spec
 		for k := 0; k < 4; k++ {
@@ -490,6 +607,9 @@ func corpusSpecs(prop string) []*spec.Spec {
 		}
 		fs = append(fs, setReferenceForms("ks"+prop[1:]+"p", 0, true), setReferenceForms("ks"+prop[1:]+"x", 1, true))
 		fs = append(fs, shadowableNames("kv"+prop[1:]+"s", false), shadowableNames("kv"+prop[1:]+"a", true))
+		fs = append(fs, suffixNamedFiles("kz"+prop[1:]+"s", false), suffixNamedFiles("kz"+prop[1:]+"a", true))
+		fs = append(fs, foreignCompositeKeys("kc"+prop[1:]+"s", false), foreignCompositeKeys("kc"+prop[1:]+"a", true))
+		fs = append(fs, spelledTwoWays("kt"+prop[1:]+"s", false), spelledTwoWays("kt"+prop[1:]+"a", true))
 		fs = append(fs, dotImported("kd"+prop[1:]+"s", false), dotImported("kd"+prop[1:]+"a", true))
 		fs = append(fs, bindVariadic("kb"+prop[1:]+"s", false, false), bindVariadic("kb"+prop[1:]+"a", true, false), bindVariadic("kb"+prop[1:]+"t", false, true), bindVariadic("kb"+prop[1:]+"b", true, true))
 		if prop == "C04" {
@@ -502,15 +622,23 @@ func corpusSpecs(prop string) []*spec.Spec {
 		}
 		return allInvocationModes(append(fs, append([]*spec.Spec{twinConfigs("k"+prop[1:]+"a", false), sameNamedPackages("k"+prop[1:]+"c"), foreignAliasSecondFile("k"+prop[1:]+"f")}, keywordSweepSpecs("kw"+prop[1:])...)...))
 	case "C09":
-		return []*spec.Spec{aliasDeclaredFields("ka09s", false), aliasDeclaredFields("ka09a", true), setReferenceForms("ks09p", 0, false), setReferenceForms("ks09q", 0, true), setReferenceForms("ks09x", 1, false), setReferenceForms("ks09y", 1, true)}
+		return []*spec.Spec{spelledTwoWays("kt09s", false), spelledTwoWays("kt09a", true), suffixNamedFiles("kz09s", false), suffixNamedFiles("kz09a", true), aliasDeclaredFields("ka09s", false), aliasDeclaredFields("ka09a", true), setReferenceForms("ks09p", 0, false), setReferenceForms("ks09q", 0, true), setReferenceForms("ks09x", 1, false), setReferenceForms("ks09y", 1, true)}
 	case "C02", "C01", "C10", "C11":
 		var fs []*spec.Spec
 		if prop == "C02" || prop == "C01" || prop == "C10" {
 			fs = append(fs, shadowableNames("kv"+prop[1:]+"s", false), shadowableNames("kv"+prop[1:]+"a", true))
+			fs = append(fs, shadowableNames("kv"+prop[1:]+"t", false, true), shadowableNames("kv"+prop[1:]+"b", true, true))
+			fs = append(fs, suffixNamedFiles("kz"+prop[1:]+"s", false), suffixNamedFiles("kz"+prop[1:]+"a", true))
 			fs = append(fs, dotImported("kd"+prop[1:]+"s", false), dotImported("kd"+prop[1:]+"a", true))
 			fs = append(fs, aliasDeclaredFields("ka"+prop[1:]+"s", false), aliasDeclaredFields("ka"+prop[1:]+"a", true))
 			fs = append(fs, bindVariadic("kb"+prop[1:]+"s", false, false), bindVariadic("kb"+prop[1:]+"a", true, false), bindVariadic("kb"+prop[1:]+"t", false, true), bindVariadic("kb"+prop[1:]+"b", true, true))
 			fs = append(fs, setReferenceForms("ks"+prop[1:]+"p", 0, false), setReferenceForms("ks"+prop[1:]+"q", 0, true))
+		}
+		if prop == "C11" {
+			fs = append(fs, suffixNamedFiles("kz11s", false), suffixNamedFiles("kz11a", true))
+		}
+		if prop == "C10" {
+			fs = append(fs, spelledTwoWays("kt10s", false), spelledTwoWays("kt10a", true))
 		}
 		if prop == "C10" || prop == "C11" {
 			for k := 0; k < 4; k++ {
